@@ -88,6 +88,8 @@ from dask_expr._expr import (
     ToDatetime,
     ToNumeric,
     ToTimedelta,
+    _first_partition,
+    _last_partition,
     no_default,
 )
 from dask_expr._merge import JoinRecursive, Merge
@@ -1858,7 +1860,7 @@ Expr={expr}"""
             return self.map_partitions(M.ffill, axis=axis, limit=limit)
         frame = self
         if limit is None:
-            frame = FillnaCheck(self, "ffill", lambda x: 0)
+            frame = FillnaCheck(self, "ffill", _first_partition)
         return new_collection(FFill(frame, limit))
 
     @derived_from(pd.DataFrame)
@@ -1868,7 +1870,7 @@ Expr={expr}"""
             return self.map_partitions(M.bfill, axis=axis, limit=limit)
         frame = self
         if limit is None:
-            frame = FillnaCheck(self, "bfill", lambda x: x.npartitions - 1)
+            frame = FillnaCheck(self, "bfill", _last_partition)
         return new_collection(BFill(frame, limit))
 
     @derived_from(pd.DataFrame)
